@@ -168,6 +168,8 @@ def judge(impl, model_line):
         return corr_ok, True, "" if corr_ok else "implementation differs from model"
     Sd, Id = parse_obs(S), parse_obs(impl)
     for k, v in Sd.items():
+        if k.startswith("~"):
+            continue          # marker for known-finding classes, not an observation
         if Id.get(k) != v:
             return corr_ok, False, f"field {k}: implementation={Id.get(k)!r} specification={v!r}"
     return corr_ok, True, "" if corr_ok else "implementation differs from model (outside the specified fields)"
